@@ -12,6 +12,7 @@ mod prob;
 mod report;
 mod sc;
 mod stationary;
+mod threshold;
 mod vmodel;
 
 /// Global allocator that fills every fresh allocation with a poison pattern (VPH_POISON=1|2),
@@ -89,6 +90,7 @@ fn main() {
             let count: usize = args.get(3).map(|s| s.parse().unwrap()).unwrap_or(60);
             parjac::run(prefix, count)
         }
+        "threshold" => threshold::run(args.get(2).expect("export file")),
         "history" => history::run(args.get(2).expect("export file")),
         "stationary" => stationary::run(args.get(2).expect("export file")),
         "model" => vmodel::run(args.get(2).expect("export file")),
